@@ -287,6 +287,9 @@ class GPTNeoXKFACEigenLayer(KFACEigenLayer):
         # with reduce_scatter where the reduction operation is sum and the
         # non_src ranks contribute zero filled tensors
         if get_world_size(self.model_parallel_group) > 1:
+            # Receive into a fresh buffer: grad_partition aliases the module's
+            # weight.grad which must stay intact until update_grad()
+            grad_partition = torch.empty_like(grad_partition)
             torch.distributed.reduce_scatter(
                 grad_partition,
                 weight_grads,
@@ -298,13 +301,16 @@ class GPTNeoXKFACEigenLayer(KFACEigenLayer):
         if self.module.has_bias():
             if get_world_size(self.model_parallel_group) > 1:
                 if self.parallelism == 'output':
+                    # bias_grad_partition aliases the module's bias.grad
+                    bias_grad = torch.empty_like(bias_grad_partition)
                     torch.distributed.reduce_scatter(
-                        bias_grad_partition,
+                        bias_grad,
                         bias_grads,
                         group=self.model_parallel_group,
                     )
-                    bias_grad = bias_grad_partition
                 else:
+                    assert bias_grad is not None
+                    bias_grad = bias_grad.clone()
                     torch.distributed.broadcast(
                         bias_grad,
                         src=self.primary_rank,
